@@ -1,0 +1,105 @@
+//go:build verif
+
+// Contracts for package bitmap, checked by /verif/govc (see /verif/DESIGN.md).
+// This file contains only comments: it adds no code to any build.
+
+package bitmap
+
+// Bit is the specification of "bit i is set", written from the BitTorrent
+// bitfield layout (BEP 3: high bit of byte 0 is piece 0), not from the code.
+//@ spec Bit(b Bitmap, i int) bool
+//@   body i>>3 < len(b) && b[i>>3]&(0x80>>uint8(i&7)) != 0
+
+//@ func New
+//@   requires length >= 0 && length <= 1<<40
+//@   ensures  [len]  len($r0) == (length+7)/8
+//@   ensures  [zero] forall k int :: 0 <= k && k < len($r0) ==> $r0[k] == 0
+//@   props    C09 C11
+
+//@ func (Bitmap).Get
+//@   requires i >= 0
+//@   ensures  [spec] $r0 == Bit(b, i)
+//@   props    C01 C05 C09 C11
+
+//@ func (*Bitmap).Extend
+//@   requires b != nil && i >= 0 && i <= 1<<40
+//@   modifies *b, (*b)[__]
+//@   ensures  [alias] (samearr_(*b, old(*b)) && cap(*b) == old(cap(*b))) || fresh_(*b)
+//@   ensures  [len]  len(*b) == max(old(len(*b)), i>>3+1)
+//@   ensures  [keep] forall k int :: 0 <= k && k < old(len(*b)) ==> (*b)[k] == old((*b)[k])
+//@   ensures  [zero] forall k int :: old(len(*b)) <= k && k < len(*b) ==> (*b)[k] == 0
+//@   props    C05 C11
+
+//@ func (*Bitmap).Set
+//@   requires b != nil && i >= 0 && i <= 1<<40
+//@   modifies *b, (*b)[__]
+//@   ensures  [alias] (samearr_(*b, old(*b)) && cap(*b) == old(cap(*b))) || fresh_(*b)
+//@   ensures  [len]  len(*b) == max(old(len(*b)), i>>3+1)
+//@   ensures  [bits] forall j int :: j >= 0 ==> Bit(*b, j) == (j == i || old(Bit(*b, j)))
+//@   props    C01 C05 C09 C11
+
+//@ func (*Bitmap).Reset
+//@   requires b != nil && i >= 0
+//@   modifies (*b)[_]
+//@   ensures  [bits] forall j int :: j >= 0 ==> Bit(*b, j) == (j != i && old(Bit(*b, j)))
+//@   props    C05 C09
+
+//@ func (Bitmap).Copy
+//@   ensures  [len]   len($r0) == len(b)
+//@   ensures  [nil]   (b == nil) == ($r0 == nil)
+//@   ensures  [same]  forall k int :: 0 <= k && k < len(b) ==> $r0[k] == b[k]
+//@   props    C09 C11
+
+//@ func (*Bitmap).SetMultiple
+//@   requires b != nil && n >= 0 && n <= 1<<40
+//@   modifies *b, (*b)[__]
+//@   ensures  [alias] (samearr_(*b, old(*b)) && cap(*b) == old(cap(*b))) || fresh_(*b)
+//@   ensures  [set]  forall j int :: 0 <= j && j < n ==> Bit(*b, j)
+//@   ensures  [keep] forall j int :: j >= n ==> Bit(*b, j) == old(Bit(*b, j))
+//@   loop 1
+//@     invariant 0 <= i && i <= n>>3 && len(*b) == max(old(len(*b)), n>>3+1)
+//@     invariant (samearr_(*b, old(*b)) && cap(*b) == old(cap(*b))) || fresh_(*b)
+//@     invariant forall k int :: 0 <= k && k < i ==> (*b)[k] == 0xFF
+//@     invariant forall k int :: i <= k && k < old(len(*b)) ==> (*b)[k] == old((*b)[k])
+//@     invariant forall k int :: i <= k && old(len(*b)) <= k && k < len(*b) ==> (*b)[k] == 0
+//@   loop 2
+//@     invariant n&^7 <= i && i <= n && len(*b) == max(old(len(*b)), n>>3+1)
+//@     invariant (samearr_(*b, old(*b)) && cap(*b) == old(cap(*b))) || fresh_(*b)
+//@     invariant forall j int :: 0 <= j && j < i ==> Bit(*b, j)
+//@     invariant forall j int :: j >= i && j >= n&^7 ==> Bit(*b, j) == old(Bit(*b, j))
+//@   props    C09 C11
+
+//@ func (Bitmap).Empty
+//@   ensures  [spec] $r0 == (forall k int :: 0 <= k && k < len(b) ==> b[k] == 0)
+//@   ensures  [bits] $r0 ==> forall j int :: j >= 0 ==> !Bit(b, j)
+//@   loop 1
+//@     invariant forall k int :: 0 <= k && k < $i ==> b[k] == 0
+//@   props    C01 C03
+
+//@ func (Bitmap).All
+//@   requires n >= 0 && n <= 1<<40
+//@   ensures  [sound] $r0 ==> forall j int :: 0 <= j && j < n ==> Bit(b, j)
+//@   loop 1
+//@     invariant 0 <= i && i <= n>>3 && n>>3 <= len(b)
+//@     invariant forall k int :: 0 <= k && k < i ==> b[k] == 0xFF
+//@   props    C01 C09 C11
+
+//@ func (Bitmap).Len
+//@   ensures  [range] 0 <= $r0 && $r0 <= 8*len(b)
+//@   loop 1
+//@     invariant -1 <= i && i < len(b)
+//@   props    C11
+
+//@ func (Bitmap).EqualValue
+//@   loop 1
+//@     invariant 0 <= i && i <= n && n <= len(b1) && n <= len(b2)
+//@   loop 2
+//@     invariant 0 <= i && n <= i
+//@   loop 3
+//@     invariant 0 <= i && n <= i
+//@   props    C09
+
+//@ func (Bitmap).Range
+//@   requires f != nil
+//@   modifies *
+//@   props    C09
